@@ -7,6 +7,7 @@ import (
 	"strings"
 
 	"github.com/pip-services3-gox/pip-services3-expressions-gox/calculator"
+	"github.com/pip-services3-gox/pip-services3-expressions-gox/calculator/functions"
 	cparsers "github.com/pip-services3-gox/pip-services3-expressions-gox/calculator/parsers"
 	ctok "github.com/pip-services3-gox/pip-services3-expressions-gox/calculator/tokenizers"
 	"github.com/pip-services3-gox/pip-services3-expressions-gox/calculator/variables"
@@ -111,6 +112,16 @@ func (propC19) Gen(r *Rand) *Plan {
 		g := NewExprGen(r)
 		g.Mixed = r.Bool(0.5)
 		text := g.Top()
+		if r.Bool(0.3) {
+			// a caller-supplied function collection shared by the tasks, with a delegate that fails for some
+			// arguments: some evaluations are on the error path while others proceed
+			p.Config["funcs"] = "custom"
+			arg := fmt.Sprint(r.Range(0, 12))
+			if v := g.varOf("int"); v != "" && r.Bool(0.7) {
+				arg = v
+			}
+			text = "If(OddFails(" + arg + ") >= 0, " + text + ", " + text + ")"
+		}
 		p.Setup = []Op{{Op: "SetExpression", S: text}}
 		if r.Bool(0.15) {
 			p.Config["setup"] = "tokens" // compiled through SetOriginalTokens
@@ -452,6 +463,17 @@ func (propC19) Exec(p *Plan, x *Ctx) *Outcome {
 		return tp.Sets[i%len(tp.Sets)]
 	}
 
+	// customFuncs builds the caller-supplied function collection of the "funcs: custom" configuration:
+	// the defaults plus a delegate that fails deterministically, by its argument
+	customFuncs := func() functions.IFunctionCollection {
+		if p.Cfg("funcs", "") != "custom" {
+			return nil
+		}
+		fc := functions.NewDefaultFunctionCollection()
+		fc.Add(functions.NewDelegatedFunction("OddFails", oddFails))
+		return fc
+	}
+	sharedFuncs := customFuncs()
 	var sharedCalc *calculator.ExpressionCalculator
 	var sharedTmpl *mustache.MustacheTemplate
 	taskVars := make([][]*variables.VariableCollection, ntasks)
@@ -556,7 +578,7 @@ func (propC19) Exec(p *Plan, x *Ctx) *Outcome {
 								s.err = err
 								return
 							}
-							s.res, s.err = c.EvaluateUsingVariables(buildVars(getSet(tp, o.Set)))
+							s.res, s.err = c.EvaluateUsingVariablesAndFunctions(buildVars(getSet(tp, o.Set)), customFuncs())
 						}()
 						ref[t][i] = s.describe()
 					}
@@ -623,7 +645,7 @@ func (propC19) Exec(p *Plan, x *Ctx) *Outcome {
 							s.done = true
 						}()
 						run.ResetOpSteps()
-						s.res, s.err = sharedCalc.EvaluateUsingVariables(vc)
+						s.res, s.err = sharedCalc.EvaluateUsingVariablesAndFunctions(vc, sharedFuncs)
 					}()
 				}
 			})
@@ -729,7 +751,7 @@ func (propC19) Exec(p *Plan, x *Ctx) *Outcome {
 						if set < 0 {
 							set = -set
 						}
-						s.res, s.err = sharedCalc.EvaluateUsingVariables(taskVars[t][set%len(taskVars[t])])
+						s.res, s.err = sharedCalc.EvaluateUsingVariablesAndFunctions(taskVars[t][set%len(taskVars[t])], sharedFuncs)
 					}()
 					if got := s.describe(); got != ref[t][i] {
 						out.Violate("repeatability", "C19/repeat/shared-calculator", "task %d op %d evaluated again afterwards: got %s; reference %s", t, i, clip(got), clip(ref[t][i]))
@@ -1188,4 +1210,26 @@ func c19SequentialRepeat(p *Plan, run *Run, out *Outcome) *Outcome {
 		C map[string]string
 	}{p.Setup, p.Tasks, p.Config})
 	return out
+}
+
+var errOdd = errorString("odd argument")
+
+type errorString string
+
+func (e errorString) Error() string { return string(e) }
+
+// oddFails is a caller-supplied function delegate (task-safe: no fmt, no locks):
+// it returns its integer argument, fails for odd ones and panics for multiples of five.
+func oddFails(params []*variants.Variant, ops variants.IVariantOperations) (*variants.Variant, error) {
+	if len(params) != 1 || params[0] == nil || params[0].Type() != variants.Integer {
+		return variants.VariantFromInteger(0), nil
+	}
+	n := params[0].AsInteger()
+	if n%5 == 0 && n != 0 {
+		panic("multiple of five")
+	}
+	if n%2 != 0 {
+		return nil, errOdd
+	}
+	return variants.VariantFromInteger(n), nil
 }
